@@ -23,8 +23,8 @@ RULE = (
     "lists and structure table through tokenise/parse/transpile; every entry of elements.yaml "
     "against the table arity; every byte string of length <= 2 written to a program file in the code-page encoding "
     "(flag v) and as UTF-8 text and run through execute_vyxal with the transpiler's input recorded; every element of "
-    "arity 0..3 run directly and through the modifier ß on four kinds of arguments (same final stack whenever the "
-    "element leaves one result). distinct_nontrivial counts distinct (obligation kind, subject) "
+    "arity 0..3 run directly and through the modifiers ß, ₌, ₍ (both operand slots, monadic and dyadic partner) and ~ on four "
+    "kinds of arguments (each operand takes as many entries as its own arity, whenever the direct run leaves one result). distinct_nontrivial counts distinct (obligation kind, subject) "
     "pairs actually executed; a two-byte string is non-trivial when its bytes differ."
 )
 ASSUMPTIONS = [
@@ -32,7 +32,7 @@ ASSUMPTIONS = [
     "elements.yaml is read by a line-based subset parser (no yaml library offline)",
 ]
 MIN_COUNTERS = {"roundtrip_2byte": 65536, "keys_tokenised": 300, "yaml_entries": 300, "keys_in_context": 3000,
-                "program_files_run": 120000, "arity_in_use_compared": 400}
+                "program_files_run": 120000, "arity_in_use_compared": 2000}
 
 import string  # noqa: E402
 
@@ -86,16 +86,24 @@ def run_unit(unit):
             res["violations"].append(V("codepage", f"code page characters not distinct: {dup!r}", unit_kind=k, subject=dup))
         for b in range(min(256, len(cp))):
             res["evals"] += 1
-            s = encoding.vyxal_to_utf8(bytes([b]))
-            back = encoding.utf8_to_vyxal(s)
             c["roundtrip_1byte"] = c.get("roundtrip_1byte", 0) + 1
+            try:
+                s = encoding.vyxal_to_utf8(bytes([b]))
+                back = encoding.utf8_to_vyxal(s)
+            except Exception as e:  # noqa - a converter that raises on a byte value is not a bijection on 0..255
+                res["violations"].append(V("codepage", f"byte {b}: converting raises {type(e).__name__}: {e}", unit_kind=k, subject=b))
+                continue
             if len(s) != 1 or back != chr(b):
                 res["violations"].append(V("codepage", f"byte {b} -> {s!r} -> {back!r}", unit_kind=k, subject=b))
         # text -> bytes -> text for every code-page character
         for ch in set(cp):
             res["evals"] += 1
-            enc = encoding.utf8_to_vyxal(ch)
-            dec = encoding.vyxal_to_utf8([ord(x) for x in enc])
+            try:
+                enc = encoding.utf8_to_vyxal(ch)
+                dec = encoding.vyxal_to_utf8([ord(x) for x in enc])
+            except Exception as e:  # noqa
+                res["violations"].append(V("codepage", f"char {ch!r}: converting raises {type(e).__name__}: {e}", unit_kind=k, subject=ch))
+                continue
             if dec != ch:
                 res["violations"].append(V("codepage", f"char {ch!r} -> {enc!r} -> {dec!r}", unit_kind=k, subject=ch))
         res["distinct"] = 256
@@ -105,9 +113,12 @@ def run_unit(unit):
         for a in range(unit["lo"], unit["hi"]):
             for b in range(256):
                 bs = bytes([a, b])
-                s = encoding.vyxal_to_utf8(bs)
-                back = encoding.utf8_to_vyxal(s)
                 n += 1
+                try:
+                    s = encoding.vyxal_to_utf8(bs)
+                    back = encoding.utf8_to_vyxal(s)
+                except Exception as e:  # noqa
+                    s, back = f"raises {type(e).__name__}: {e}", None
                 if back != chr(a) + chr(b) or len(s) != 2:
                     res["violations"].append(V("codepage", f"bytes {list(bs)} -> {s!r} -> {back!r}", unit_kind="codepage1", subject=list(bs)))
                     if len(res["violations"]) > 5:
@@ -176,52 +187,93 @@ def run_unit(unit):
         keys = [key for key in E.elements if key not in whole_stack and 0 <= E.elements[key][1] <= 3
                 and "context_values" not in E.elements[key][0]]
         import random as _random
+        def run(prog, stack):
+            """final stack (canonical) of a normally completed run, else None"""
+            try:
+                with watchdog(3):
+                    _random.seed(20)  # random-choice elements draw the same in every run
+                    r = env.run_text(prog, stack=[values.from_spec(x) for x in stack])
+                    if r.error is not None:
+                        return None
+                    out = values.canon_loose(r.stack, 400)
+                    return None if _has_tag(out) else out
+            except (Watchdog, MemoryError, RecursionError):
+                return None
+            except SystemExit:  # the quit element; exit() closes stdin
+                try:
+                    if sys.stdin is None or sys.stdin.closed:
+                        sys.stdin = open(os.devnull)
+                except Exception:  # noqa
+                    pass
+                return None
+            except Exception:  # noqa
+                return None
+
+        def one_result(prog, stack, a):
+            """the single result an element of arity a leaves in place of the top a entries, else None"""
+            d = run(prog, stack)
+            keep = len(stack) - a
+            if not isinstance(d, list) or len(d) != keep + 1 or d[:keep] != values.canon_loose(stack[:keep], 400):
+                return None
+            return d
+
+        def report(key, a, what):
+            try:
+                text = f"element {key!r} (arity {a}): {what}"[:900]
+            except ValueError:  # integers beyond the interpreter's digit limit for str()
+                text = f"element {key!r} (arity {a}): its use through a modifier leaves something else than its direct use (values too long to print)"
+            res["violations"].append(V("arity_in_use", text, unit_kind=k, subject=key))
+
+        partners = [("d", 1), ("+", 2)]
         for key in keys[unit["part"]::unit["of"]]:
             a = E.elements[key][1]
-            for sent in ([10007, 10009, 10037], [3, 4, 5], ["ab", "cd", "ef"], [[1, 2], [3], [4, 5]]):
-                outs = {}
-                # a called function receives its arguments in reversed order (the convention C11 is about), so
-                # the direct run gets the top `a` entries reversed
-                rsent = sent[:3 - a] + sent[3 - a:][::-1]
-                for how, prog, args in (("direct", key, rsent), ("ß", "ß" + key, sent + [1])):
-                    try:
-                        with watchdog(3):
-                            _random.seed(20)  # random-choice elements draw the same in both runs
-                            r = env.run_text(prog, stack=[values.from_spec(x) for x in args])
-                            if r.error is not None:
-                                break
-                            outs[how] = values.canon_loose(r.stack, 400)
-                    except (Watchdog, MemoryError, RecursionError):
-                        break
-                    except SystemExit:  # the quit element; exit() closes stdin
-                        try:
-                            if sys.stdin is None or sys.stdin.closed:
-                                sys.stdin = open(os.devnull)
-                        except Exception:  # noqa
-                            pass
-                        break
-                    except Exception:  # noqa
-                        break
-                if len(outs) != 2:
-                    continue
-                d = outs["direct"]
-                if _has_tag(d) or _has_tag(outs["ß"]):
-                    continue  # a result that is not a Vyxal value (e.g. an unevaluated map object) has no value to compare
-                # exactly one result in place of the a consumed entries: a lambda hands back one value, so only
-                # then must the call through the modifier leave what the element itself leaves
-                if not isinstance(d, list) or len(d) != 3 - a + 1 or d[:3 - a] != values.canon_loose(sent[:3 - a], 400):
-                    continue
-                res["evals"] += 1
-                c["arity_in_use_compared"] = c.get("arity_in_use_compared", 0) + 1
-                res["keys"].append(f"inuse:{key}:{type(sent[0]).__name__}")
-                if outs["ß"] != d:
-                    try:
-                        txt = f"leaves {d!r}; called through the modifier ß with a true condition on {sent!r} it leaves {outs['ß']!r}"
-                    except ValueError:  # integers beyond the interpreter's digit limit for str()
-                        txt = "leaves something else than the call through the modifier ß with a true condition (values too long to print)"
-                    res["violations"].append(V("arity_in_use", f"element {key!r} (arity {a}) on {rsent!r} {txt}"[:900],
-                                               unit_kind=k, subject=key))
+            bad = False
+            for sent in ([10007, 10009, 10037, 10039], [3, 4, 5, 6], ["ab", "cd", "ef", "gh"], [[1, 2], [3], [4, 5], [6]]):
+                if bad:
                     break
+                n = len(sent)
+                canon_sent = values.canon_loose(sent, 400)
+                # (1) a called function receives its arguments in reversed order (the convention C11 is about), so
+                # the direct run gets the top `a` entries reversed
+                rsent = sent[:n - a] + sent[n - a:][::-1]
+                d = one_result(key, rsent, a)
+                if d is not None:
+                    viab = run("ß" + key, sent + [1])
+                    if viab is not None:
+                        res["evals"] += 1
+                        c["arity_in_use_compared"] = c.get("arity_in_use_compared", 0) + 1
+                        res["keys"].append(f"inuse:ß:{key}:{type(sent[0]).__name__}")
+                        if viab != d:
+                            report(key, a, f"on {rsent!r} leaves {d!r}; called through the modifier ß with a true condition on {sent!r} it leaves {viab!r}")
+                            bad = True
+                            continue
+                # (2) parallel application and retain: every operand takes as many entries as its own arity
+                dk = one_result(key, sent, a)
+                if dk is None:
+                    continue
+                rk = dk[-1]
+                progs = []
+                for pk, pa in partners:
+                    dp = one_result(pk, sent, pa)
+                    if dp is None:
+                        continue
+                    rp = dp[-1]
+                    progs += [("₌" + key + pk, canon_sent[:n - pa] + [rk, rp]), ("₌" + pk + key, canon_sent[:n - a] + [rp, rk]),
+                              ("₍" + key + pk, canon_sent[:n - pa] + [[rk, rp]]), ("₍" + pk + key, canon_sent[:n - a] + [[rp, rk]])]
+                if a >= 2:
+                    progs.append(("~" + key, canon_sent + [rk]))
+                for prog, want in progs:
+                    got = run(prog, sent)
+                    if got is None:
+                        continue
+                    res["evals"] += 1
+                    c["arity_in_use_compared"] = c.get("arity_in_use_compared", 0) + 1
+                    res["keys"].append(f"inuse:{prog}:{type(sent[0]).__name__}")
+                    if got != want:
+                        report(key, a, f"program {prog!r} on {sent!r} leaves {got!r}; the operands applied directly to as many entries as "
+                                       f"their arity give {want!r}")
+                        bad = True
+                        break
         res["violations"] = [dict(v, unit=unit) for v in res["violations"]][:12]
     elif k == "keys":
         names = [("element", key) for key in E.elements] + [("modifier", key) for key in E.modifiers]
